@@ -7,7 +7,7 @@
    list — no bound on the size of the graph. *)
 From Coq Require Import List ZArith Bool Lia Permutation.
 Import ListNotations.
-From V Require Import Valid.Hier Valid.Walk Valid.FlatRegion Model.Graph Model.Edits.
+From V Require Import Valid.Hier Valid.Walk Valid.FlatRegion Valid.Cons Model.Graph Model.Edits.
 Local Open Scope Z_scope.
 
 Definition kind_of (b : eblk) : nkind :=
@@ -433,6 +433,43 @@ Proof.
   - intros ds. apply (walk_all ds en ben [] Hfen).
 Qed.
 
+Lemma onames_og : onames (og g) = ekeys g.
+Proof. unfold onames, og, ekeys. rewrite map_map. reflexivity. Qed.
+
+(* C05 for the first stage: every input block is kept once, as an original block with the same
+   successors in the same positions - an exit may gain the single edge to the common exit *)
+Theorem closed_conserved : Conserved (og g) h.
+Proof.
+  constructor.
+  - exact nodup_names_h.
+  - rewrite onames_og. destruct Hin as [Hnd _ _ _ _]. exact Hnd.
+  - intros ob Hob. unfold og in Hob. apply in_map_iff in Hob as [[x b] [<- Hxb]]. cbn [o_name o_payload o_succ fst snd].
+    destruct Hin as [Hnd Horig Hclosed Htop Hfresh].
+    assert (Hf : efind g x = Some b) by (apply In_efind; assumption).
+    destruct (node_of_orig x b Hf) as [jt [Hfh Hjt]].
+    exists (mkNode x top jt [] (KOrig 1)). split; [exact Hfh|]. split; [reflexivity|]. cbn [n_jt].
+    unfold SuccOk. destruct Hjt as [->|[Hj0 [-> Hff]]].
+    + split; [left; reflexivity|]. intros i t Hnth. split.
+      * rewrite names_h. right. apply (cl_keys _ _ _ Hcl). left.
+        eapply Hclosed; [exact Hxb|]. eapply nth_error_In; eauto.
+      * left. exact Hnth.
+    + rewrite Hj0. split; [right; split; [reflexivity|exists fresh; reflexivity]|].
+      intros [|i] t Hnth; cbn in Hnth; [|destruct i; discriminate]. injection Hnth as <-. split.
+      * rewrite names_h. right. pose proof (find_In _ _ _ Hff) as [Hinh _].
+        unfold h, ehier in Hinh. destruct Hinh as [Heq|Hinh].
+        -- exfalso. injection Heq as Heq _. destruct Htop as [_ [_ Hft]]. congruence.
+        -- apply in_map_iff in Hinh as [[k v] [Hkv Hk]]. unfold node_of in Hkv. injection Hkv as <- _ _ _.
+           unfold ekeys. apply in_map_iff. exists (k, v). auto.
+      * right. rewrite onames_og. exact Hfresh.
+  - intros n p Hn Hk. unfold h, ehier in Hn. destruct Hn as [<-|Hn]; [discriminate|].
+    apply in_map_iff in Hn as [[x b'] [<- Hxb']]. unfold node_of in Hk. cbn in Hk |- *.
+    rewrite onames_og.
+    assert (Hx' : In x (ekeys g')) by (unfold ekeys; apply in_map_iff; exists (x, b'); auto).
+    apply (cl_keys _ _ _ Hcl) in Hx' as [Hx'|[-> Hx']]; [exact Hx'|].
+    exfalso. assert (Hfb : efind g' fresh = Some b') by (apply In_efind; [apply (cl_nodup _ _ _ Hcl)|exact Hxb']).
+    rewrite (cl_fresh _ _ _ Hcl b' Hfb) in Hk. unfold kind_of in Hk. cbn in Hk. discriminate.
+Qed.
+
 End WalkClosed.
 
 (* ---------- C01, first stage, for all graphs ---------- *)
@@ -441,4 +478,11 @@ Theorem join_returns_path_eq g top fresh en g' :
   PathEq false (og g) (ehier top g').
 Proof.
   intros Hi He Hj. apply (closed_path_eq g g' top fresh en Hi (join_returns_closed g top fresh g' Hi Hj) He).
+Qed.
+
+Theorem join_returns_conserved g top fresh en g' :
+  Input g top fresh -> oentry (og g) = Some en -> join_returns g fresh 3 = Ok g' ->
+  Conserved (og g) (ehier top g').
+Proof.
+  intros Hi He Hj. apply (closed_conserved g g' top fresh Hi (join_returns_closed g top fresh g' Hi Hj)).
 Qed.
